@@ -179,6 +179,8 @@ const preludeSMT = `(set-option :produce-models true)
 (assert (= (rootid nil) 0))
 (declare-fun dyntype (Ref) Int)
 (declare-fun ptag (Ref) Int)
+(declare-fun fnid (Ref) Int)
+(declare-fun fnrecv (Ref) Ref)
 (declare-fun unboxRef (Ref) Ref)
 (declare-fun unboxInt (Ref) Int)
 (declare-fun maplen (Ref) Int)
